@@ -124,6 +124,8 @@ MUTANTS = [
      "        stream_ok = stream is not None and hasattr(stream, \"buffer\")\n", "        stream_ok = True\n", ["C10"]),
     ("revert-D40-only-mkdir-guarded-in-combine", "execution/ops/combine_outputs.py",
      "                copy_into.symlink_to(relative_to_target)\n\n        except OSError as ex:", "                copy_into.symlink_to(relative_to_target)\n\n        except NotADirectoryError as ex:", ["C03", "C09"]),
+    ("revert-D41-sigchld-left-blocked", "utils/sigchld.py",
+     "        existing_mask = signal.pthread_sigmask(signal.SIG_UNBLOCK, {signal.SIGCHLD})\n", "        existing_mask = signal.pthread_sigmask(signal.SIG_UNBLOCK, set())\n", ["C09"]),
     ("loader-no-dup-check", "parsing/task_index.py",
      "                    if dep_identifier in task_deps_set:\n", "                    if dep_identifier in task_deps_set and len(task_deps) > 2:\n", ["C14"]),
 ]
